@@ -80,13 +80,27 @@ fn span_json<'tcx>(tcx: TyCtxt<'tcx>, sp: Span) -> J {
         }
         other => format!("{:?}", other),
     };
-    J::obj(vec![
+    let mut v = vec![
         ("file", J::s(&file)),
         ("line", J::i(lo.line as i128)),
         ("line_hi", J::i(hi.line as i128)),
         ("col", J::i(lo.col.0 as i128 + 1)),
         ("exp", J::b(sp.from_expansion())),
-    ])
+    ];
+    if sp.from_expansion() {
+        // where the outermost macro was invoked (e.g. the `panic!(..)` line in the crate)
+        let cs = sp.source_callsite();
+        let clo = sm.lookup_char_pos(cs.lo());
+        let cfile = match &clo.file.name {
+            rustc_span::FileName::Real(r) => {
+                if let Some(p) = r.local_path() { p.to_string_lossy().to_string() } else { format!("{:?}", r) }
+            }
+            other => format!("{:?}", other),
+        };
+        v.push(("cs_file", J::s(&cfile)));
+        v.push(("cs_line", J::i(clo.line as i128)));
+    }
+    J::obj(v)
 }
 
 fn path<'tcx>(tcx: TyCtxt<'tcx>, did: DefId) -> String {
